@@ -30,6 +30,19 @@ structure RState where
   gunder : Bool := false
   /-- `Weak::upgrade` of `Task::executor` fails: the executor has been dropped -/
   dead : Bool := false
+  /-- ghost: the vtable calls the TEST FUTURES and the outside operations make (not those of yash-executor itself),
+      in order, as `4·task + kind` (kind 0 `clone`, 1 `wake`, 2 `wake_by_ref`, 3 `drop`); the harness logs the same
+      calls where it makes them and both sides print length and a hash, so which entry is called where is observed -/
+  vlog : List Nat := []
+
+/-- ghost: the caller (a test future, an outside operation) made these vtable calls -/
+def lg (r : RState) (cs : List Nat) : RState := { r with vlog := r.vlog ++ cs }
+
+/-- codes of the four vtable entries for task `t` -/
+def cClone (t : Nat) : Nat := 4 * t
+def cWake (t : Nat) : Nat := 4 * t + 1
+def cRef (t : Nat) : Nat := 4 * t + 2
+def cDrop (t : Nat) : Nat := 4 * t + 3
 
 /-- `Rc::increment_strong_count` / `Rc::clone` -/
 def incStrong (r : RState) (t : Nat) : RState := { r with strong := upd r.strong t (r.strong t + 1) }
@@ -82,11 +95,11 @@ def rNew (r : RState) (own : Nat) (sc : Script) : RState :=
 /-! ### the test futures' side (what `harness/src/bin/c15.rs` does with the wakers it is given) -/
 
 /-- a `Waker` held by a channel is woken by value (`signal`, drain mode: `std::mem::take` + `wk.wake()`) -/
-def wakeAllVal (r : RState) (ws : List Nat) : RState := ws.foldl vtWake r
+def wakeAllVal (r : RState) (ws : List Nat) : RState := ws.foldl (fun r w => lg (vtWake r w) [cWake w]) r
 
 /-- sticky mode: `waiters.clone()` (every waker cloned), `wake_by_ref` on each clone, clones dropped -/
 def wakeAllRef (r : RState) (ws : List Nat) : RState :=
-  ws.foldl (fun r t => vtDrop (vtWakeByRef (vtClone r t) t) t) r
+  ws.foldl (fun r t => lg (vtDrop (vtWakeByRef (vtClone r t) t) t) [cClone t, cRef t, cDrop t]) r
 
 /-- action `signal k` -/
 def rSignal (r : RState) (k : Nat) : RState :=
@@ -118,14 +131,15 @@ def rRunActs (t : Nat) : Script → RState → RState × Option Script
   | .complete :: _, r => (r, none)
   | .yield :: rest, r =>
     -- `cx.waker().wake_by_ref(); cx.waker().clone().wake()`
-    (vtWake (vtClone (vtWakeByRef r t) t) t, some rest)
+    (lg (vtWake (vtClone (vtWakeByRef r t) t) t) [cRef t, cClone t, cWake t], some rest)
   | .wait k :: rest, r =>
     if 0 < r.s.tokens k then
       rRunActs t rest { r with s := { r.s with tokens := upd r.s.tokens k (r.s.tokens k - 1) } }
     else
       -- `waiters[k].push(cx.waker().clone())`
       let r1 := vtClone r t
-      ({ r1 with s := { r1.s with waiters := upd r1.s.waiters k (r1.s.waiters k ++ [t]) } }, some (.wait k :: rest))
+      (lg { r1 with s := { r1.s with waiters := upd r1.s.waiters k (r1.s.waiters k ++ [t]) } } [cClone t],
+       some (.wait k :: rest))
   | .signal k :: rest, r => rRunActs t rest (rSignal r k)
   | .spawn :: rest, r => rRunActs t rest (rSpawnChild r t)
   | .join :: rest, r =>
@@ -209,19 +223,21 @@ def rRun (r : RState) : XOp → RState
   | .wake k i =>
     match (r.s.waiters k)[i]? with
     | none => r
-    | some t => vtWake { r with s := { r.s with waiters := upd r.s.waiters k ((r.s.waiters k).eraseIdx i) } } t
+    | some t => lg (vtWake { r with s := { r.s with waiters := upd r.s.waiters k ((r.s.waiters k).eraseIdx i) } } t) [cWake t]
   | .byRef k i =>
     match (r.s.waiters k)[i]? with
     | none => r
-    | some t => vtWakeByRef r t
+    | some t => lg (vtWakeByRef r t) [cRef t]
   | .clone k i =>
     match (r.s.waiters k)[i]? with
     | none => r
-    | some t => let r1 := vtClone r t; { r1 with s := { r1.s with waiters := upd r1.s.waiters k (r1.s.waiters k ++ [t]) } }
+    | some t =>
+      let r1 := vtClone r t
+      lg { r1 with s := { r1.s with waiters := upd r1.s.waiters k (r1.s.waiters k ++ [t]) } } [cClone t]
   | .drop k i =>
     match (r.s.waiters k)[i]? with
     | none => r
-    | some t => vtDrop { r with s := { r.s with waiters := upd r.s.waiters k ((r.s.waiters k).eraseIdx i) } } t
+    | some t => lg (vtDrop { r with s := { r.s with waiters := upd r.s.waiters k ((r.s.waiters k).eraseIdx i) } } t) [cDrop t]
   | .signal k => rSignal r k
   | .dropExec => if r.dead then r else rDropExec r
   | .try_ c => if c < r.s.ntasks && !heldByParent r.s c then { r with s := takeValue r.s c } else r
@@ -235,6 +251,10 @@ def rRunAll (r : RState) (ops : List XOp) : RState := ops.foldl rRun r
 /-- the accounting identity: every unit of the strong count is a queue entry, a live `Waker`, or a local handle -/
 def balB (r : RState) : Bool :=
   (List.range r.s.ntasks).all fun t => r.strong t == r.s.queue.count t + r.wk t + r.loc t
+
+/-- length and hash of the logged vtable calls, as the harness prints them -/
+def vlogDigest (l : List Nat) : String :=
+  s!"{l.length}#{l.foldl (fun h c => (h * 131 + c + 1) % 1000000007) 7}"
 
 /-- at an operation boundary: the count the code maintains is the derived count `refs` of Model.lean (so the
     task is freed exactly when `lostB` says), no local handle is left, nothing was decremented at zero -/
